@@ -105,6 +105,18 @@ CHECKS = {
         "ungrouped input are not compared (accepted convention).",
         "4/C09",
     ),
+    "C04": (
+        "metamorphic runtime monitor over option variants, same engine on both sides",
+        "For each random pipeline (biased to shared sub-DAGs and unmergeable-at-build extend chains) SQL is generated "
+        "under option variants of use_with x use_cte_elim x annotate x initial_commas x extend-merge on/off (all 32 "
+        "thorough, 14 quick) with sampled indent, for the SQLite dialect (on SQLite) and the PostgreSQL dialect with "
+        "CTE elimination (on the SQLite surrogate); every variant must return the plain variant's table and raise iff "
+        "it raises; to_sql must be repeatable and must not change the pipeline. Evidence counts observed CTE re-use "
+        "and SQL-level extend merges.",
+        "Trusted: same-engine comparison; PostgreSQL text that only the SQLite surrogate cannot run (and engine "
+        "resource limits on deeply nested text) is excluded and counted.",
+        "4/C04",
+    ),
 }
 
 NOT_BUILT = "check not built yet (build in progress, see DESIGN.md section 8)"
